@@ -39,15 +39,19 @@ def generate(seed, tier, index):
         # molecule counts far above 2^24 per cell (still far below 2^31): totals must stay exact in what the user receives
         p.update(n_mol=(3e7, 2e8), integer_state=True, max_cells=6, graph_nodes=(1, 4), graph_edges=(0, 4), max_order=2,
                  p_zero_dens=0.0)
+    half = kind == "tauleap" and not huge and rs.chance(0.12)
+    if half:
+        # whole and exactly-half amounts handed over untouched ('none'): whole molecules move, the halves stay
+        p.update(integer_state="half", state="explicit")
     long_run = rf.chance(0.3) and not huge
     steps = (100, 600) if long_run else (10, 80)
     if tier == "thorough" and rf.chance(0.1):
         steps = (1000, 5000)
     entry = C.make_script_entry(rs, ru, rk, kind, p,
                                 {"steps": steps, "policy": rk.choice(["on_iteration", "on_iteration", "on_interval", "on_t_sample"]),
-                                 "nreq": (3, 12), "p_explicit_tmax": 0.7, "isp": "none" if huge else None,
-                                 "tauleap_overshoot": 0.15},
-                                rich=rs.chance(0.4) and not huge)
+                                 "nreq": (3, 12), "p_explicit_tmax": 0.7, "isp": "none" if (huge or half) else None,
+                                 "tauleap_overshoot": 0.15, "tauleap_fractional_none": 1.0 if half else 0.5},
+                                rich=rs.chance(0.4) and not huge and not half)
     sp = entry["phys"]["sp"]
     nrep = rf.wchoice([(1, 3), (2, 2)])
     scripts = [entry]
@@ -81,7 +85,7 @@ def generate(seed, tier, index):
         eps.append({"obj": 0, "kind": kind, "via": rf.choice(["LibRDEngine", "factory"]), "script": sidx, "ops": ops})
     return {"format": 1, "property": ID, "seed": seed, "tier": tier, "index": index, "build": "plain",
             "scripts": scripts, "lifetimes": [{"pyseed": rf.bits(30), "episodes": eps}],
-            "meta": {"kind": kind, "sibling": len(scripts) > 1, "huge": huge}}
+            "meta": {"kind": kind, "sibling": len(scripts) > 1, "huge": huge, "half": half}}
 
 
 def check(case, results):
@@ -94,6 +98,8 @@ def check(case, results):
         stats["sibling_second_setup"] = 1
     if case["meta"].get("huge"):
         stats["counts_above_2^24"] = 1
+    if case["meta"].get("half"):
+        stats["half_integer_state_untouched"] = 1
     for ei, ep in enumerate(case["lifetimes"][0]["episodes"]):
         phys = case["scripts"][ep["script"]]["phys"]
         m = Model(phys["spec"])
